@@ -163,6 +163,15 @@ def adjust_oracle(c, job, amount, size_before, idle_before, pend, tag, states=No
     from fractions import Fraction
     w = Exact(Fraction(E.concrete_vals[sorted(names)[-1]])) if names else None
   total2 = c.total + amount
+  if w is None and bool(c.dt == vtime.T0 + 1):
+    w = 0            # the EMA's 'never updated' state (_time == -1): the first sample is taken as it is
+    cover('ema-first-sample')
+  if w is None and stubs.exp_calls() == 0:
+    # the code drew no weight in this step (it did not evaluate exp(-dt/window)): the reference draws its own, so that an
+    # update that skips the smoothing for some dt > 0 is still compared with the defining formula
+    import scales.varz as _vz
+    w = _vz.math.exp(-_vz.float(c.dt) / s._ema._window) if s._ema._window else 0
+    cover('reference-draws-the-weight')
   if w is None:
     return
   ema2 = total2 * (1 - w) + c.v * w
